@@ -40,6 +40,8 @@ structure Act where
   comps : List (Str × Block) := []
   isFn : Bool := false
   isComp : Bool := false
+  /-- record context of a globally defined record type: its type names are looked up globally (`Context::typeScope`) -/
+  typeGlobal : Bool := false
   retTy : Ty := .none
   retVal : Option Val := none
   switchTok : Option (Nat × Nat) := none
